@@ -30,14 +30,16 @@ CHECKS = {
         'spines of the operands sit in tighter rows, or in the same row on the side its associativity allows, so operators of a '
         'non-associative row are never chained; prefix/postfix nodes dominate the facing spine of their operand strictly - '
         'proved by a stack invariant of the loop (pop_while/prec_loop/postfixes); the extracted judgement pok is applied to '
-        'every tree the real parser returns. Tree shape and extent (precedence, associativity, non-chaining of non-associative '
+        'every tree the real parser returns. Coq theorem C02_extent (same quantifiers): the expression ends only where no postfix '
+        'operator stands and no infix operator either, unless that operator is not followed by an operand (left unconsumed) or belongs '
+        'to a non-associative row. Tree shape and extent (precedence, associativity, non-chaining of non-associative '
         'rows, prefix/postfix attachment, dangling operator left unconsumed) are stated by an independent precedence-climbing '
         'reference (Pratt.v); loop = reference is proved inside the kernel for ALL token strings up to length 5-9 over five '
         'tables covering every row kind and shared spellings (finite theorems), and checked against the implementation on '
         'every run. Correspondence: random tables x all token strings up to length 5: expression-level model (raw triples '
         'incl. failure position), token-level loop model, the reference, and the yield judge on every successful parse; '
         'character-level tables (++ vs +, mixfix, ignore) through the expression-level model.',
-   note=TB + 'Known finding: a postfix operator is preferred over a longer infix operator of another row matching at the same place. Character-level tables with overlapping multi-character spellings and tables written inline inside another table are judged by the rule of the property (ordered inside a row, longest across rows) + the token-level reference. partial: precedence/associativity well-formedness and the yield are proved without bound; uniqueness of a well-formed tree with a given yield and the maximal-extent clause are carried by the finite kernel sweeps loop = reference and by the differential runs; mixfix rows are covered by correspondence and by C01\'s Longest/Choice semantics only.',
+   note=TB + 'Known finding: a postfix operator is preferred over a longer infix operator of another row matching at the same place. Character-level tables with overlapping multi-character spellings and tables written inline inside another table are judged by the rule of the property (ordered inside a row, longest across rows) + the token-level reference. partial: the yield, precedence/associativity well-formedness and the stop reasons (extent) are proved without bound; uniqueness of a well-formed tree with a given yield is carried by the finite kernel sweeps loop = reference and by the differential runs; mixfix rows are covered by correspondence and by C01\'s Longest/Choice semantics only.',
    technique='Coq proofs of the yield invariant and of precedence/associativity well-formedness (stack invariants of the loop, unbounded) + kernel-computed finite equivalence with a reference + differential correspondence',
    ref='DESIGN.md §6 C02'),
  'C03': dict(
